@@ -39,8 +39,18 @@ var base = time.Date(2021, 1, 1, 0, 0, 0, 0, time.UTC)
 
 func mkInfo(p, ver int) *model.ProviderInfo {
 	a, _ := multiaddr.NewMultiaddr(fmt.Sprintf("/ip4/8.9.%d.%d/tcp/%d", p%250, ver%250, 1000+ver))
-	return &model.ProviderInfo{AddrInfo: peer.AddrInfo{ID: pids[p], Addrs: []multiaddr.Multiaddr{a}}, LastError: fmt.Sprintf("v%d", ver),
+	pi := &model.ProviderInfo{AddrInfo: peer.AddrInfo{ID: pids[p], Addrs: []multiaddr.Multiaddr{a}}, LastError: fmt.Sprintf("v%d", ver),
 		LastAdvertisementTime: base.Add(time.Duration(ver) * time.Second).Format(time.RFC3339)}
+	if p%2 == 0 {
+		// every other provider lists extended providers, chain-level and for the context "ctx"; some of them carry no
+		// addresses and name identities that are not providers of their own (never cached, unknown to every source)
+		pi.ExtendedProviders = &model.ExtendedProviders{
+			Providers: []peer.AddrInfo{{ID: pids[p], Addrs: []multiaddr.Multiaddr{a}}, {ID: pids[180-p%20]}, {ID: pids[160-p%20], Addrs: []multiaddr.Multiaddr{a}}},
+			Metadatas: [][]byte{nil, []byte("x1"), []byte("x2")},
+			Contextual: []model.ContextualExtendedProviders{{ContextID: "ctx", Providers: []peer.AddrInfo{{ID: pids[140-p%20]}}, Metadatas: [][]byte{[]byte("c1")}}},
+		}
+	}
+	return pi
 }
 
 // verOf extracts the version of a record and checks that tag, time and address agree (no torn mixtures).
@@ -240,6 +250,11 @@ func runCase(t *testing.T) func(Case) pbt.Result {
 						fail(fmt.Sprintf("reader %d %s: GetResults(cached provider %d) = %v, %v", r, phase, op.Pid, prs, err))
 						return
 					}
+					if want := map[bool]int{true: 4, false: 1}[op.Pid%2 == 0]; len(prs) != want {
+						// main provider + one context-level + two chain-level extended providers (its own entry without new metadata is skipped)
+						fail(fmt.Sprintf("reader %d %s: GetResults(cached provider %d) returned %d results, expected %d", r, phase, op.Pid, len(prs), want))
+						return
+					}
 				case "list":
 					seen := map[peer.ID]bool{}
 					for _, pi := range pc.List() {
@@ -415,7 +430,7 @@ func runCase(t *testing.T) func(Case) pbt.Result {
 
 func TestC07_Bubble(t *testing.T) {
 	pbt.Run(t, pbt.Config{Prop: "C07", Unit: "TestC07_Bubble", TrackCurrent: true,
-		Rule: "cache preloaded with 2..12 stable providers; 1..5 rounds: the source advances versions of a drawn subset (or all: main-map rebuild) and adds 0..2 new providers, a writer (explicit Refresh, miss-fetch of an uncached ID, or the automatic refresh triggered by lookups after the refresh interval elapsed on the virtual clock) is parked inside the source call, optionally a Get of another uncached ID is queued behind it, then 1..8 readers run drawn sequences of Get / List / GetResults on the stable providers and Get of IDs remembered as absent (negative entries, re-established before each round) while the writer is parked and again after it is released; oracle: at exact quiescence (synctest.Wait, no timeout) no reader of a cached provider is blocked; per reader and provider the observed version never decreases; stable providers are never nil / missing from List; records are never torn; the writer and the queued miss finish once the source answers; after a completed refresh the source's versions are visible; 4 concurrent lookups after the interval cause exactly one FetchAll round. Non-trivial: reader calls overlapped a parked writer; distinct by case.",
+		Rule: "cache preloaded with 2..12 stable providers; 1..5 rounds: the source advances versions of a drawn subset (or all: main-map rebuild) and adds 0..2 new providers, a writer (explicit Refresh, miss-fetch of an uncached ID, or the automatic refresh triggered by lookups after the refresh interval elapsed on the virtual clock) is parked inside the source call, optionally a Get of another uncached ID is queued behind it, then 1..8 readers run drawn sequences of Get / List / GetResults on the stable providers (every other provider lists chain-level and context-level extended providers, some without addresses and naming identities that are cached nowhere) and Get of IDs remembered as absent (negative entries, re-established before each round) while the writer is parked and again after it is released; oracle: at exact quiescence (synctest.Wait, no timeout) no reader of a cached provider is blocked; per reader and provider the observed version never decreases; stable providers are never nil / missing from List; records are never torn; the writer and the queued miss finish once the source answers; after a completed refresh the source's versions are visible; 4 concurrent lookups after the interval cause exactly one FetchAll round. Non-trivial: reader calls overlapped a parked writer; distinct by case.",
 		Assumptions: []string{"a Get of an ID that is not cached is allowed to wait for the writer"},
 	}, genCase, runCase(t))
 }
